@@ -306,6 +306,13 @@ class Tr(object):
                         x = x[2]
                     return (x[0] == "path" and len(x[1]) == 1 and x[1][0] in self.cfg.get("bytes_vars", [])) or \
                         (x[0] == "field" and x[2] in ("0", "1") and self.cfg.get("bytes_vars") is not None)
+                def is_opt_bytes(x):
+                    while x[0] == "unary":
+                        x = x[2]
+                    return x[0] == "path" and len(x[1]) == 1 and x[1][0] in self.cfg.get("opt_bytes_vars", [])
+                if is_opt_bytes(e[2]) or is_opt_bytes(e[3]):
+                    t = "(opt_bytes_eqb %s %s)" % (a, b)
+                    return t if op == "==" else "(negb %s)" % t
                 if is_bytes(e[2]) or is_bytes(e[3]):
                     t = "(beq_bytes %s %s)" % (a, b)
                     return t if op == "==" else "(negb %s)" % t
@@ -1597,6 +1604,8 @@ Definition set_header_list (added : list header) (k v : bytes) : res (list heade
 (* src/parser.rs works on what httparse returns: the outcome of parse() and the fields of the Response / Request it filled in.
    The http builder keeps version, status (or method) and the fields added so far; body(()) fails on a name it does not accept
    (Parser.builder_ok) and otherwise yields the model's response with the HeaderMap of those fields. *)
+Definition opt_bytes_eqb (a b : option bytes) : bool :=
+  match a, b with Some x, Some y => beq_bytes x y | None, None => true | _, _ => false end.
 (* Writer::try_write runs a closure on the cursor: the closure is a function of the position *)
 Definition run_block (position : N) (block : N -> N * bool) : res (N * bool) := Ok (block position).
 Inductive hp_status := HpComplete (n : N) | HpPartial.
@@ -1985,6 +1994,14 @@ FLOWFUNCS = [
                 (r"self\.0\.set_position\(pos\);", "position = pos;")],
          params=[("position", "mutval", "N", None), ("block", "val", "N -> N * bool", None)],
          known_state2=[("run_block", "run_block")], rust_ret="bool"),
+    # src/client/flow.rs: can_redirect_auth_header -- may the redirect target keep the credentials: same host, and same scheme or an
+    # upgrade to https.  What the function reads off the two URIs (host of the authority, scheme) are values.
+    dict(coq="gen_can_redirect_auth_header", file="src/client/flow.rs", impl=None, rust="can_redirect_auth_header", kind="plain",
+         subst=[(r"prev\.authority\(\)\.map\(\|a\| a\.host\(\)\)", "host_of_prev"), (r"next\.authority\(\)\.map\(\|a\| a\.host\(\)\)", "host_of_next"),
+                (r"prev\.scheme\(\)", "scheme_of_prev"), (r"next\.scheme\(\)", "scheme_of_next")],
+         params=[("host_of_prev", "val", "option bytes", None), ("host_of_next", "val", "option bytes", None),
+                 ("scheme_of_prev", "val", "option bytes", None), ("scheme_of_next", "val", "option bytes", None)],
+         opt_bytes_vars=["host_prev", "host_next", "scheme_prev", "scheme_next"], paths={"Scheme::HTTPS": '(s2b "https")'}, rust_ret="bool"),
     # src/ext.rs: HeaderIterExt::has (the test behind `Connection: close` and `Expect: 100-continue`): some field with that name has that value
     dict(coq="gen_headers_has", file="src/ext.rs", impl=None, rust="has", kind="plain", bytes_vars=["key", "value"],
          subst=[(r"self\s*\.filter", "headers.iter().filter")],
